@@ -169,6 +169,83 @@ func ruleCanonNormalizer(c *Ctx) {
 		}
 		c.ob(rule, fmt.Sprintf("normalizeBase:return#%d", n), rs.Pos(), why == "", why)
 	})
+	// the normaliser of $ref texts cleans the path before it answers, on every path: the early answer for a
+	// location that is already absolute included (file:///a/./b.json and file:///a/b.json are one document)
+	ufd := c.decl(c.funcObj("normalizeURI"))
+	if ufd == nil || ufd.Body == nil {
+		c.undecided(rule, "normalizeURI", token.NoPos, "normalizeURI not found")
+		return
+	}
+	c.saw(c.funcName(ufd))
+	// decided on the effect normal form (helpers that clean a URL in place are inlined): on every path, before the
+	// String() call whose result is returned, path.Clean has been called and its result - or the empty text that
+	// replaces "." - has been stored into a URL's Path
+	// helpers of the package are inlined, except those that loop (predicates scanning the text stay opaque)
+	paths, unsup := c.simulate(ufd, func(f *types.Func) bool {
+		gfd := c.decl(f)
+		if f.Pkg() != c.Types || gfd == nil || gfd.Body == nil {
+			return false
+		}
+		loops := false
+		ast.Inspect(gfd.Body, func(n ast.Node) bool {
+			switch n.(type) {
+			case *ast.ForStmt, *ast.RangeStmt:
+				loops = true
+			}
+			return !loops
+		})
+		return !loops
+	})
+	if unsup != "" || len(paths) == 0 {
+		c.undecided(rule, "normalizeURI", ufd.Pos(), "normalizeURI is not in the supported subset: "+unsup)
+		return
+	}
+	bad, answers := "", 0
+	for _, p := range paths {
+		if len(p.rets) != 1 {
+			continue
+		}
+		// the obligation is about answers printed from a URL (u.String()); an answer put together from the texts
+		// given (a fast path for fragment-only references) has no path of its own and is not decided here
+		rc, ok := p.rets[0].(svCall)
+		if f, isF := rc.callee.(*types.Func); !ok || !isF || f.Name() != "String" || f.Pkg() == nil || f.Pkg().Path() != "net/url" {
+			continue
+		}
+		answers++
+		limit := len(p.effs)
+		for i, e := range p.effs {
+			if e.kind == "call" && e.call != nil && e.call.id == rc.id {
+				limit = i
+			}
+		}
+		stored := false
+		for _, e := range p.effs[:limit] {
+			switch e.kind {
+			case "write":
+				if len(e.dst.steps) == 0 || e.dst.steps[len(e.dst.steps)-1] != "Path" {
+					continue
+				}
+				switch v := e.val.(type) {
+				case svCall:
+					if f, ok := v.callee.(*types.Func); ok && f.Pkg() != nil && f.Pkg().Path() == "path" && f.Name() == "Clean" {
+						stored = true
+					}
+				case svConst:
+					if v.v.Kind() == constant.String && constant.StringVal(v.v) == "" {
+						stored = true
+					}
+				}
+			}
+		}
+		if !stored && bad == "" {
+			bad = "a $ref can be answered (" + svString(p.rets[0]) + ") without path.Clean having been applied to its path first: ./, x/../ and // spellings of one document are no longer identified"
+		}
+	}
+	if answers == 0 {
+		c.undecided(rule, "normalizeURI", ufd.Pos(), "no answer of normalizeURI is printed from a URL: the rule has nothing to decide")
+		return
+	}
+	c.ob(rule, "normalizeURI:cleaned-before-answer", ufd.Pos(), bad == "", bad)
 }
 
 func ruleEncodeReadonly(c *Ctx) {
@@ -189,13 +266,50 @@ func ruleEncodeReadonly(c *Ctx) {
 		fn := c.funcName(fd)
 		c.saw(fn)
 		var writes []string
+		// locals that share storage with the receiver: assigned a map, slice or pointer member of it (pths := p.Paths)
+		alias := map[types.Object]bool{}
+		for round := 0; round < 2; round++ {
+			ast.Inspect(fd.Body, func(n ast.Node) bool {
+				as, ok := n.(*ast.AssignStmt)
+				if !ok || len(as.Lhs) != len(as.Rhs) {
+					return true
+				}
+				for i, l := range as.Lhs {
+					id, ok := unparen(l).(*ast.Ident)
+					if !ok {
+						continue
+					}
+					p, ok := c.apath(as.Rhs[i])
+					if !ok || !(p.Root == recv && len(p.Steps) > 0 || alias[p.Root]) {
+						continue
+					}
+					if t := c.typeOf(as.Rhs[i]); t != nil {
+						switch t.Underlying().(type) {
+						case *types.Map, *types.Slice, *types.Pointer:
+							if o := c.objOf(id); o != nil && o != recv {
+								alias[o] = true
+							}
+						}
+					}
+				}
+				return true
+			})
+		}
 		ast.Inspect(fd.Body, func(n ast.Node) bool {
 			switch x := n.(type) {
 			case *ast.AssignStmt:
 				for _, l := range x.Lhs {
 					l = unparen(l)
 					p, ok := c.apath(l)
-					if !ok || p.Root != recv || len(p.Steps) == 0 {
+					if !ok || len(p.Steps) == 0 {
+						continue
+					}
+					if alias[p.Root] {
+						// below an alias every store reaches the shared storage (the alias is itself a reference)
+						writes = append(writes, exprString(l))
+						continue
+					}
+					if p.Root != recv {
 						continue
 					}
 					// a store that goes through a reference (map element, pointer, slice element) reaches shared storage
@@ -205,7 +319,7 @@ func ruleEncodeReadonly(c *Ctx) {
 				}
 			case *ast.CallExpr:
 				if c.isBuiltin(x, "delete") && len(x.Args) > 0 {
-					if p, ok := c.apath(x.Args[0]); ok && p.Root == recv {
+					if p, ok := c.apath(x.Args[0]); ok && (p.Root == recv || alias[p.Root]) {
 						writes = append(writes, "delete("+exprString(x.Args[0])+", ...)")
 					}
 				}
